@@ -497,3 +497,15 @@ components:
 `), Group: "response-matrix", Client: true},
 	}
 }
+
+// JSONCorpus: schema shapes of the JSON dialect (DESIGN §0.7): static specs
+// under /verif/corpus/json.
+func JSONCorpus(verifDir string) []CorpusEntry {
+	var out []CorpusEntry
+	files, _ := filepath.Glob(filepath.Join(verifDir, "corpus", "json", "*.yaml"))
+	sort.Strings(files)
+	for _, f := range files {
+		out = append(out, CorpusEntry{Name: "json-" + strings.TrimSuffix(filepath.Base(f), ".yaml"), Spec: f, Client: true, Group: "json"})
+	}
+	return out
+}
